@@ -249,6 +249,19 @@ def decisions(text):
                             # a stored flag (a tuple / struct field read as a boolean)
                             out.add(('is', 'flag', frozenset({re.sub(r'^.*?((?:\.\d+)+)$', r'\1', inner)}) | leaves(inner)))
                     continue
+                # an unsigned length compared with zero: `len > 0`, `0 < len`, `len >= 1`, `len < 1`, `len <= 0` are the emptiness
+                # test `len == 0` / `len != 0`
+                _z = lambda t: re.fullmatch(r'0_(?:usize|u\d+)', t.strip()) is not None
+                _o = lambda t: re.fullmatch(r'1_(?:usize|u\d+)', t.strip()) is not None
+                _ln = lambda t: re.search(r'::len\(', t) is not None
+                if (op in ('gt', 'le') and _z(b) and _ln(a)) or (op in ('lt', 'ge') and _z(a) and _ln(b)):
+                    op = 'ne'
+                elif (op in ('ge', 'lt') and _o(b) and _ln(a)) or (op in ('le', 'gt') and _o(a) and _ln(b)):
+                    op = 'ne'
+                    if _o(b):
+                        lb = leaves(re.sub(r'^1_', '0_', b.strip()))
+                    else:
+                        la = leaves(re.sub(r'^1_', '0_', a.strip()))
                 # one decision = a test and its negation: `x < y`, `x >= y` (same test, other branch), `y > x`, `y <= x`
                 # all become lt(x, y); `x <= y` / `x > y` / `y >= x` / `y < x` become lt(y, x); == and != become eq{x, y}
                 if op in ('eq', 'ne'):
@@ -531,12 +544,17 @@ def value_tokens(label, strip=True):
         out.extend(re.findall(r'\.\d+\b', text))          # tuple positions (enumerate counter vs element)
     # an abbreviated sub-description stands for its full text: its digest is part of the value
     out.extend(sorted(re.findall(r'…#[0-9a-f]{8,12}', text)))
+    # (identifying an abbreviation by its leaves instead of its digest made a flipped `a.ge(b)` / `b.le(a)` silent, and lost seeded
+    # C14-6, whose rewritten formula has the same leaves: withdrawn)
     for m in _TOKEN.finditer(text):
         t = m.group(0)
         if t.startswith('"') or (strip and re.fullmatch(r'c\d+(?:\.arg\d+)?', t)):
             continue
         if '::' in t and _PLUMBING.match(t):
             continue
+        # `a.ge(b)` and `b.le(a)` are one value (new_values compares the tokens order-insensitively; which side is the greater
+        # one is held by the decisions)
+        t = re.sub(r'::ge$', '::le', re.sub(r'::gt$', '::lt', t))
         out.append(t)
     return tuple(out)
 
